@@ -117,3 +117,41 @@ Example subst_example :
   = [FLeaf (TIdent "f"); FOpen DParen; FLeaf (TIdent "value"); FLeaf dot; FLeaf (TIdent "x"); FLeaf dot; FLeaf (TIdent "c");
      FOpen DParen; FClose DParen; FLeaf comma; FOpen DBracket; FLeaf (TIdent "value"); FLeaf (TLit """~@"""); FClose DBracket; FClose DParen].
 Proof. vm_compute. reflexivity. Qed.
+
+(* C10_sites: every position that accepts a user expression renders it through quote_action, with
+   `@` = the source object and `~` = the path stated here *)
+Definition sites_statement : Prop :=
+  (* vars(...) *)
+  (forall c l, tc_init (c_core c) = Some l ->
+     struct_pre_init c = Some (flat_map (fun x => [TIdent "let"; TIdent (id_ident x); P1 "="] ++ quote_action (id_action x) None c ++ [semi]) l)) /\
+  (* return *)
+  (forall qr c, quick_return_block qr c =
+     if is_into_existing (c_kind c) then [P1 "*"; TIdent "other"; P1 "="] ++ quote_action qr None c ++ [semi]
+     else quote_action qr None c) /\
+  (* member instruction expression on the Into side: `~` = the path handed in by the rendering arm *)
+  (forall mc act fp c o, mc_action mc = Some act -> get_action_or (AField mc) fp c o = Ok (quote_action act fp c)) /\
+  (* member instruction on the From side: with a member name `~` = <value.>(child path.)name, without one = the field's own path *)
+  (forall mc m act obj fpath c o, mc_member mc = Some m -> mc_action mc = Some act -> is_variant c = false ->
+     get_stuff (AField mc) obj fpath c o = Ok (quote_action act (Some (fpath m)) c)) /\
+  (forall mc act obj fpath c o, mc_member mc = None -> mc_action mc = Some act ->
+     get_stuff (AField mc) obj fpath c o = Ok (quote_action act (Some (fpath o)) c)) /\
+  (* #[ghost({expr})]: no `~` path *)
+  (forall g act obj fpath c o, fg_action g = Some act -> get_stuff (AGhost g) obj fpath c o = Ok (quote_action act None c)) /\
+  (* #[ghosts(name: {expr})] on the Into side *)
+  (forall g i c, gd_ident g = GMember (MNamed i) -> is_intoish (c_kind c) = true ->
+     render_ghost_line g c = Ok ([TIdent i; P1 ":"] ++ quote_action (gd_action g) None c ++ [comma])) /\
+  (* nested [instr(expr)] inside #[parent(..)] *)
+  (forall p k at_ act fp c o, get_for_kind p k = Some at_ -> pf_action at_ = Some act ->
+     get_action_or (AParentChild p k) fp c o = Ok (quote_action act fp c)).
+
+Lemma sites_proof : sites_statement.
+Proof.
+  repeat split.
+  - intros c l H. unfold struct_pre_init. rewrite H. reflexivity.
+  - intros mc act fp c o H. cbn [get_action_or]. rewrite H. reflexivity.
+  - intros mc m act obj fpath c o Hm Ha Hv. cbn [get_stuff]. rewrite Hm, Ha. destruct m; [reflexivity|]. rewrite Hv. reflexivity.
+  - intros mc act obj fpath c o Hm Ha. cbn [get_stuff]. rewrite Hm, Ha. reflexivity.
+  - intros g act obj fpath c o H. cbn [get_stuff]. rewrite H. reflexivity.
+  - intros g i c Hi Hk. unfold render_ghost_line. rewrite Hi, Hk. reflexivity.
+  - intros p k at_ act fp c o Hg Ha. cbn [get_action_or]. rewrite Hg, Ha. reflexivity.
+Qed.
